@@ -437,8 +437,8 @@ template<class T, glm::qualifier Q> void family(Rng& g, int scale_down) {
             if (e == c) continue;
             if (((cnt++) % ((g_thorough ? 2 : 23) * sd)) != 0) continue;
             const int bx[3] = { -1, 0, 2 };
-            V3 eye(T(bx[e % 3]), T(bx[(e / 3) % 3]), T(bx[(e / 9) % 3])), cen(T(bx[c % 3] * 2), T(bx[(c / 3) % 3] * 2 + 1), T(bx[(c / 9) % 3] - 3));
-            V3 up(T(UPS[u][0]), T(UPS[u][1]), T(UPS[u][2]));
+            V3 eye = V3(T(bx[e % 3]), T(bx[(e / 3) % 3]), T(bx[(e / 9) % 3])), cen = V3(T(bx[c % 3] * 2), T(bx[(c / 3) % 3] * 2 + 1), T(bx[(c / 9) % 3] - 3));
+            V3 up = V3(T(UPS[u][0]), T(UPS[u][1]), T(UPS[u][2]));
             ev_lookAt<T, Q>(eye, cen, up);
         }
         // large offsets, fractional data, up nearly parallel to the view direction (angle about 1e-3), up not normalised
